@@ -159,7 +159,7 @@ def run(R):
         if rv["k"] in ("ref", "copy_for_deref"):
             pls.append(rv["pl"])
         for pl in pls:
-            if ef.local_name(pl["l"]) == "config":
+            if 1 <= pl["l"] <= ef.arg_count and ef.local_ty(pl["l"]).endswith("execution_engine::ExecutionConfig"):
                 cfg_reads.append((i, s))
     sel = PR.calls_matching(ef, r"ExecutionEngine::execute_select$")
     agg_calls = [c for c in ef.calls if short(c.name) in (ENG + "execute_aggregate", ENG + "execute_aggregate_update", ENG + "execute_aggregate_result")]
